@@ -93,6 +93,18 @@ CLAIMED = {
             'Placement model in vf/props/c05.py (loops over a dict of pixels); '
             'numpy scalar arithmetic for the products.',
             'DESIGN.md section 5, C05'),
+    'C20': ('exploration',
+            'Hypothesis property tests with numpy as the reference '
+            '(broadcasting, indexing, arithmetic), algebraic laws for '
+            'rotation, WCS round trip and origin-shift metamorphic relation',
+            'Random search over x/y shape pairs (scalar, 0-length, N-D, mixed '
+            'ranks, non-broadcastable), dtypes, nine kinds of index '
+            'expression, rotation centres/angles of any magnitude and unit, '
+            'and the celestial WCS family x origin x mode.',
+            'numpy semantics; astropy.wcs for the transformations themselves '
+            '(the relation checked is PixCoord\'s forwarding of origin/mode and '
+            'shape handling).',
+            'DESIGN.md section 5, C20'),
 }
 
 PENDING_REASON = ('check designed (DESIGN.md section 5) but not yet built and '
